@@ -265,6 +265,14 @@ func (e *mvccEngine) backupOp(toks []string) string {
 		}
 		cfg, a := e.newConfig()
 		db := nitro.NewWithConfig(cfg)
+		// `pre=1`: the writers (and with them the collection and free workers) of the new instance are created
+		// BEFORE the restore replaces its store
+		var pre []*nitro.Writer
+		if p, _ := argOf(toks, "pre"); p == "1" {
+			for i := 0; i < e.nw; i++ {
+				pre = append(pre, db.NewWriter())
+			}
+		}
 		s, err := db.LoadFromDisk(e.bkdir, conc, nil)
 		if err != nil {
 			db.Close()
@@ -278,8 +286,8 @@ func (e *mvccEngine) backupOp(toks []string) string {
 		e.db, e.alloc = db, a
 		atomic.StoreInt64(&e.sent, 0)
 		atomic.StoreInt64(&e.done, 0)
-		e.writers = nil
-		for i := 0; i < e.nw; i++ {
+		e.writers = pre
+		for i := len(pre); i < e.nw; i++ {
 			e.writers = append(e.writers, db.NewWriter())
 		}
 		e.snaps = []*nitro.Snapshot{s}
